@@ -96,7 +96,11 @@ def gen_history(rng):
         elif k < 8 and rng.chance(1, 5):
             # the failing function had stored a closure over one of its locals in a global: the definition it completed (the global) stays,
             # and the closure still sees the variable it captured (expected output known by construction)
-            how = rng.choice(['var z = nil + 1;', 'throw "after capture";', 'undefined_name_%d;' % uid, 'return [1][7];'])
+            how = rng.choice(['var z = nil + 1;', 'throw "after capture";', 'undefined_name_%d;' % uid, 'return [1][7];',
+                              # the failure happens in a fiber the capturing function is waiting for / several calls deeper
+                              'var fbx = Fiber.new(|| { throw "in a child fiber"; }); fbx.call();',
+                              'var fbx = Fiber.new(|| { var inner = Fiber.new(|| { var q = nil + 1; }); inner.call(); }); fbx.call();',
+                              'fn deeper(n) { if n == 0 { throw "deeper"; } return deeper(n - 1); } deeper(3);'])
             f = ('var kept%d = nil;\nfn cap%d() { var pad = %d; var held = "held%d"; kept%d = || held + String.from(pad); %s }\ncap%d();\n'
                  % (uid, uid, uid, uid, uid, how, uid))
             a.append(f); b.append("var kept%d = nil;\n" % uid); kinds.append("fail-capture")
